@@ -16,7 +16,7 @@ LEVEL = 'model_checking'
 TECHNIQUE = ('bounded exhaustive enumeration of (program, pattern/template, nested, count, on, loop, back) on the real sub()/subn(), each '
              'result compared with a reference pure-AST transformer (structure, counts), C01 and line preservation outside the '
              'substituted statements')
-LEVEL_TEXT = ('15 programs x 10 (pattern, template) pairs (single-node, whole-match, swap, unwrap, slice, multi-node Dict, statement with '
+LEVEL_TEXT = ('17 programs x 13 (pattern, template) pairs (single-node, whole-match, swap, unwrap, slice, multi-node Dict, statement with '
               'slice captures, identity) x all combinations of nested/count/on/loop/back that the reference defines are executed on the '
               'real code and compared with the reference transformer')
 LEVEL_NOTE = ('trusted: CPython ast (unparse->parse normal form) and the reference transformer written from the documented semantics '
@@ -24,7 +24,7 @@ LEVEL_NOTE = ('trusted: CPython ast (unparse->parse normal form) and the referen
 RULE = ('enum: case = (program, rule, settings); non-trivial = distinct cases with >= 1 substitution; states = distinct result sources; '
         'traces = cases compared with the reference')
 ASSUMPTIONS = ['count limits are compared only for nested=False (walk order of the new tree is otherwise template dependent)']
-BOUNDS = {'quick': '15 programs x 10 rules x nested {F,T} x on {enter, leave} + count {1,2} x back {F,T} (nested=False) + loop 2 (unwrap rule)',
+BOUNDS = {'quick': '17 programs x 13 rules x nested {F,T} x on {enter, leave} + count {1,2} x back {F,T} (nested=False) + loop 2 (unwrap rule)',
           'thorough': 'same (the space is small and completed in quick)'}
 
 PROGS = [
@@ -43,6 +43,8 @@ PROGS = [
     "x = g(h) + f(a)(b)(c)(d)\ny = p(q)(r) + s(t)(u)(v)(w)",
     "def f(名前, 既定='値', *rest, k=1, **kw): return 1\nx = 2",
     "def g(a, b=2, /, c=3): pass  # c7\ndef h(j, k='é', **kw):\n    pass",
+    "trace(cmd, level=2, *args)\nlog(a, *b, k=c, **d)\nrun(x)\nn()",
+    "t(k=1, *a, *b, j=2)\nu(*v, w, x=y)  # c8\nz = p(q, r=s(*t, u=v, *w), **k)",
 ]
 for _p in PROGS:
     ast.parse(_p)
@@ -98,6 +100,22 @@ def rules(M):
         call = ast.Call(func=T(name('impl')), args=args, keywords=kws, _tmpl=True)
         return ast.FunctionDef(name='wrapper', args=a, body=[ast.Return(value=call, _tmpl=True)], decorator_list=[], type_params=[],
                                lineno=1, _tmpl=True)
+    # quantifier captures over call arguments put into a template slot: Call.args alone, and the position-merged _args
+    R['call-args-tail'] = (M.MCall(args=[M.M(head=...), M.MQSTAR(tail=...)]), lambda n: isinstance(n, ast.Call) and len(n.args) >= 1,
+                           lambda n: ast.Call(func=T(name('wrapped')), args=list(n.args[1:]), keywords=[], _tmpl=True),
+                           'wrapped(__FST_tail)', False)
+
+    def merged_tail(n):
+        m = sorted(list(n.args) + list(n.keywords), key=lambda x: (x.lineno, x.col_offset))[1:]
+        return ast.Call(func=T(name('wrapped')), args=[x for x in m if not isinstance(x, ast.keyword)],
+                        keywords=[x for x in m if isinstance(x, ast.keyword)], _tmpl=True)
+    R['call-_args-tail'] = (M.MCall(_args=[M.M(head=...), M.MQSTAR(tail=...)]),
+                            lambda n: isinstance(n, ast.Call) and len(n.args) + len(n.keywords) >= 1, merged_tail, 'wrapped(__FST_tail)', False)
+    R['call-_args-init'] = (M.MCall(_args=[M.MQSTAR.NG(init=...), M.M(last=...)]),
+                            lambda n: isinstance(n, ast.Call) and len(n.args) + len(n.keywords) >= 1,
+                            lambda n: ast.Call(func=T(name('wrapped')), args=[x for x in sorted(list(n.args) + list(n.keywords), key=lambda x: (x.lineno, x.col_offset))[:-1] if not isinstance(x, ast.keyword)],
+                                               keywords=[x for x in sorted(list(n.args) + list(n.keywords), key=lambda x: (x.lineno, x.col_offset))[:-1] if isinstance(x, ast.keyword)], _tmpl=True),
+                            'wrapped(__FST_init)', False)
     R['def->wrapper'] = (M.MFunctionDef(args=M.M(a=...)), lambda n: isinstance(n, ast.FunctionDef), wrapper,
                          'def wrapper(__FST_a):\n    return impl(__FSS_a)', False)
     return R
@@ -277,7 +295,8 @@ def run_case(fst, M, pi, rname, st, res):
 
 
 RULE_NAMES = ['name->log', 'binop->f', 'binop-swap', 'call-unwrap', 'expr-identity', 'list-slice', 'dict-mid', 'if-swap', 'stmt-identity',
-              'def->wrapper']
+              'def->wrapper',
+              'call-args-tail', 'call-_args-tail', 'call-_args-init']
 
 
 def shards(tier):
